@@ -533,7 +533,12 @@ class FunctionalLeftScalarMult(Functional, OperatorLeftScalarMult):
                     sigma : positive float, optional
                         Step size parameter. Default: 1.0
                 """
-                return self.functional.proximal(sigma * self.scalar)
+                if isinstance(sigma, (list, tuple)):
+                    # One step size per component (separable sums)
+                    scaled_sigma = [sigma_i * self.scalar for sigma_i in sigma]
+                else:
+                    scaled_sigma = sigma * self.scalar
+                return self.functional.proximal(scaled_sigma)
 
             return proximal_left_scalar_mult
 
